@@ -75,12 +75,13 @@ def render_msf(rng, rows, width=None):
     for n, r in rows:
         out.append(" Name: %s  Len: %5d  Check: %4d  Weight: 1.00" % (n.ljust(pad), L, gen.gcg_checksum(r)))
     out += ["", "//", ""]
+    ragged = rng.random() < 0.3     # rows not padded to a common column: each name is followed by one to three blanks and the data
     for i in range(0, max(L, 1), width):
         for n, r in rows:
             chunk = r[i:i + width]
             if rng.random() < 0.5:   # GCG style: blanks every 10 columns
                 chunk = " ".join(chunk[j:j + 10] for j in range(0, len(chunk), 10))
-            out.append(n.ljust(pad) + chunk)
+            out.append((n + " " * rng.randint(1, 3) if ragged else n.ljust(pad)) + chunk)
         out.append("")
     if rng.random() < 0.25:
         while out and out[-1] == "":
